@@ -79,7 +79,7 @@ def shrink_candidates(c):
         yield {"peers": c["peers"], "events": ev[:i] + ev[i + 1:]}
 
 
-def run(ctx, pid, oracle, name, assumptions, fields=("view", "adjin", "counters", "rib"), extra_trusted=(), kinds=("ebgp", "ibgp", "rr")):
+def run(ctx, pid, oracle, name, assumptions, fields=("view", "adjin", "counters", "rib"), extra_trusted=(), kinds=("ebgp", "ibgp", "rr"), extra=None):
     norm_impl, norm_model = mk_norms(fields)
     proof = core.coq_properties(pid)
     ctx.say("proof stage: ok=%s theorems=%d audit=%d (%.1fs)" % (proof["ok"], len(proof["theorems"]), len(proof["audit"]), proof.get("wall_s", 0)))
@@ -92,6 +92,15 @@ def run(ctx, pid, oracle, name, assumptions, fields=("view", "adjin", "counters"
                             correspondence_name=name, impl_spec=IMPL_SPEC, model_name="spk")
     pc = core.proof_coverage(proof)
     pc.update(cov)
+    if extra:
+        # a second, package-level correspondence for the same property
+        cov2, cases2 = extra(ctx, proof)
+        pc["evaluations"] = pc.get("evaluations", 0) + cov2["evaluations"]
+        pc["distinct_nontrivial"] = pc.get("distinct_nontrivial", 0) + cov2["distinct_nontrivial"]
+        pc["traces_validated_against_impl"] = pc.get("traces_validated_against_impl", 0) + cov2["traces_validated_against_impl"]
+        pc["disagreements_checked"] = pc.get("disagreements_checked", 0) + cov2["disagreements_checked"]
+        pc["samples"] = pc.get("samples", []) + cov2["samples"][:2]
+        pc["second_correspondence"] = {"evaluations": cov2["evaluations"], "distinct_nontrivial": cov2["distinct_nontrivial"]}
     kinds_count = {}
     ev_count = {}
     for c in cases:
